@@ -138,6 +138,46 @@ def _is_constant(n):
     return False
 
 
+def _same_var(a, b):
+    a, b = a.strip_all(), b.strip_all()
+    while a.k in ("CXXFunctionalCastExpr", "CXXStaticCastExpr", "CStyleCastExpr", "ImplicitCastExpr") and a.c:
+        a = a.c[0].strip_all()
+    while b.k in ("CXXFunctionalCastExpr", "CXXStaticCastExpr", "CStyleCastExpr", "ImplicitCastExpr") and b.c:
+        b = b.c[0].strip_all()
+    return a.k == "DeclRefExpr" and b.k == "DeclRefExpr" and a.decl and b.decl and a.decl.get("id") == b.decl.get("id")
+
+
+def _square_bound_inclusive(cmp_node, prods):
+    """trial division / sieving must still visit d with d*d == n: a continue-condition d*d < n, or a break-condition
+    d*d >= n, skips the square root of a perfect square (9, 25, 49 ... are then classified as primes)"""
+    sq = [x for x in prods if _same_var(x.c[0], x.c[1])]
+    if not sq:
+        return None
+    x = sq[0]
+    lhs, rhs = cmp_node.c
+    on_left = any(y.id == x.id for y in lhs.walk())
+    op = cmp_node.op
+    if not on_left:
+        op = {"<": ">", ">": "<", "<=": ">=", ">=": "<=", "==": "==", "!=": "!="}[op]
+    # role of the comparison: loop condition (continue while true) or the condition of an if that leaves the loop
+    role = None
+    p = cmp_node.parent
+    child = cmp_node
+    while p is not None and p.k in ("ImplicitCastExpr",):
+        child, p = p, p.parent
+    if p is not None and p.k in ("WhileStmt", "ForStmt", "DoStmt") and p.role("cond") is not None and p.role("cond").id == child.id:
+        role = "continue"
+    elif p is not None and p.k == "IfStmt" and p.role("cond") is not None and p.role("cond").id == child.id:
+        then = p.role("then")
+        if then is not None and any(y.k in ("BreakStmt", "ReturnStmt") for y in then.walk()):
+            role = "leave"
+    if role == "continue" and op == "<":
+        return "%s continues only while the square is strictly below the argument: the divisor whose square equals it is never tried" % cmp_node.text()
+    if role == "leave" and op == ">=":
+        return "%s leaves the search as soon as the square reaches the argument: the divisor whose square equals it is never tried" % cmp_node.text()
+    return None
+
+
 def rule_N2(prog, fixture=False):
     res = RuleResult("N2", "in every function reachable from isprime/factor/nextprime/primes, a product of two non-constant "
                            "integers that feeds a comparison or loop condition is computed in a type wide enough to hold it")
@@ -199,9 +239,12 @@ def rule_N2(prog, fixture=False):
                 if wa + wb > have and have < 63:
                     bad.append("%s is computed in %s (%d value bits) but its operands carry %d + %d bits"
                                % (x.text(), x.type, have, wa, wb))
+            incl = _square_bound_inclusive(n, prods)
             if bad:
                 res.add(key, VIOLATED, where, what, "; ".join(bad) + ": the bound wraps for large 32-bit arguments", func=f.name)
+            elif incl is not None:
+                res.add(key, VIOLATED, where, what, incl, func=f.name)
             else:
-                res.add(key, DISCHARGED, where, what, "product computed in a sufficiently wide type", func=f.name)
+                res.add(key, DISCHARGED, where, what, "product computed in a sufficiently wide type; square bound is inclusive", func=f.name)
     res.stats["comparison_sites"] = cmp_sites
     return res
